@@ -260,7 +260,11 @@ CLAIMED = {
              "streams, for several core counts and seeded adversarial schedules (connection.wait replaced by a shim that returns a "
              "seeded ordered sub-list of in-flight pipes): every leg compared bit for bit (handler, candidate times, out-state, global "
              "state, trash list, samples); no worker alive after post_run; a run that does not finish is a deadlock.",
-        note="OS-level behaviour (pipes, events, lost wake-ups, reaping) is exercised, not modelled. Quantifier: configurations whose "
+        note="The abstract 'rest of the application' of mp_refines_sp is instantiated by the concrete single-process loop of E1 "
+             "(JF/Props/C20Loop.lean): Protocol medEnv is a THEOREM (from the activator/scheduler invariants of MediatorLoop), runSP of that "
+             "environment is JF.Med.runLegs (runSP_eq_runLegs, any scheduler instance), hence mp_refines_medloop and the transfers "
+             "commit_times_sorted_mp, no_stale_event_committed_mp, trashed_never_committed_mp, committed_is_running_mp for every core count, "
+             "arity assignment and adversary. OS-level behaviour (pipes, events, lost wake-ups, reaping) is exercised, not modelled. Quantifier: configurations whose "
              "pre-computable out-states draw no random numbers. The tie finding (two handlers started in one leg report EQUAL candidate times: the commit "
              "depended on the arrival order) was repaired in /repo (fix 93334e5: times are pushed after the receive loop in activator "
              "order); mp_refines_sp holds without a no-tie hypothesis; the counterexample theorem tie_breaks_refinement is kept for the old "
